@@ -6,6 +6,7 @@ import (
 	"io"
 	"log/slog"
 	"net"
+	"sync"
 	"sync/atomic"
 
 	"github.com/ovh/kmip-go"
@@ -47,6 +48,8 @@ type conn struct {
 	cancel func(error)
 	closed atomic.Bool
 	logger *slog.Logger
+	// wg tracks the read and write loop goroutines
+	wg sync.WaitGroup
 }
 
 // newConn initializes and returns a new conn instance for handling KMIP protocol communication.
@@ -67,17 +70,26 @@ func newConn(netCon net.Conn, ctx context.Context, logger *slog.Logger) *conn {
 		logger: logger,
 	}
 	c.tx.Store(make(chan txMsg))
-	go c.readloop()
-	go c.writeloop()
+	c.wg.Add(2)
+	go func() {
+		defer c.wg.Done()
+		c.readloop()
+	}()
+	go func() {
+		defer c.wg.Done()
+		c.writeloop()
+	}()
 	return c
 }
 
 // Close terminates the connection by invoking the terminate method with net.ErrClosed.
 // It is intended to close the underlying resources associated with the connection.
-// Note: Goroutines associated with the connection are not currently awaited before closure.
+// It returns once the read and write loop goroutines of the connection have exited.
 func (c *conn) Close() error {
-	return c.terminate(net.ErrClosed)
-	// TODO: Wait exit of goroutines
+	err := c.terminate(net.ErrClosed)
+	// Both loops return once the context is cancelled and the stream is closed.
+	c.wg.Wait()
+	return err
 }
 
 // terminate gracefully shuts down the connection by performing the following steps:
